@@ -19,6 +19,11 @@
                   Float value (f64::to_string is not modelled).  So all 26 constructors are covered, two of them
                   (OpMove, OpMoveAt) under side12.
                   pending_op = the rest: covered by the correspondence + implementation fuzzer only.
+   C12_closed_preserved_partial [U, partial]: Closed (this development's own part of PanicFree) holds again after
+                  create_named_sub_element(+_at), remove_sub_element, set_item_name, set_character_data (non-float),
+                  set_reference_target, add_to_file, remove_from_file, whatever they return; the other operations keep it too
+                  (every step of their proofs re-establishes it) but the statement is not exported yet; the tree part of
+                  PanicFree (finite chains, child lists = parent links) is C03's Core invariant.
    C12_tables_real [F]: tables_ok12 holds for the regenerated tables.
    C12_depth_tree / C12_depth_walk [U]: the subtree below any node has height < number of allocated nodes + 1 (= the fuel
                   the model gives), and the recursive pre-order walk returns exactly when its fuel exceeds the height:
@@ -41,6 +46,17 @@ Theorem C12_no_panic_partial :
       (forall s, run_op T tab_el tab_en check_fn LATEST root_attrs o w <> Pan s) /\
       run_op T tab_el tab_en check_fn LATEST root_attrs o w <> Fuel.
 Proof. exact no_panic_covered'. Qed.
+
+Theorem C12_closed_preserved_partial :
+  forall (T : tables) (tab_el tab_en : nametab) (check_fn : N -> list N -> res bool) (LATEST : N) (root_attrs : list (N * cdata)),
+    tables_ok12 T = true ->
+    (forall fn s, exists b, check_fn fn s = Val b) ->
+    nametab_ok tab_en = true ->
+    name_ok tab_el (name_short_name T) ->
+    forall w o,
+      closed_pres_op o = true -> PanicFree T tab_el tab_en w -> op_wf tab_el tab_en w o ->
+      forall r w', run_op T tab_el tab_en check_fn LATEST root_attrs o w = Val (r, w') -> Closed T tab_el tab_en w'.
+Proof. exact closed_preserved_partial. Qed.
 
 Theorem C12_coverage : forall o,
   covered_op o = match o with OpSetCData _ (DFloat _) => false | _ => true end.
